@@ -240,6 +240,21 @@ func (g GV) build() any {
 			return (*Tok)(nil)
 		}
 		return valueToks[g.ID%len(valueToks)]
+	case "ptrto":
+		switch g.Name {
+		case 2:
+			if g.Nil {
+				return (*st2)(nil)
+			}
+			v := g.Under.build().(st2)
+			return &v
+		default:
+			if g.Nil {
+				return (*tagged)(nil)
+			}
+			v := g.Under.build().(tagged)
+			return &v
+		}
 	case "func":
 		if g.Nil {
 			return (func() int)(nil)
@@ -374,6 +389,16 @@ func encodeGV(x any) GV {
 			}
 		}
 		return GV{T: "chan", ID: 99}
+	case *st2:
+		if t == nil {
+			u := GV{T: "struct", ID: 2, Elems: []GV{gInt("KInt", "0"), gStr(0)}}
+			return GV{T: "ptrto", Name: 2, Nil: true, Under: &u}
+		}
+		u := encodeGV(*t)
+		return GV{T: "ptrto", Name: 2, Under: &u}
+	case *tagged:
+		u := GV{T: "struct", ID: 10}
+		return GV{T: "ptrto", Name: 10, Nil: t == nil, Under: &u}
 	case st1:
 		return GV{T: "struct", ID: 1, Elems: []GV{encodeGV(t.A), encodeGV(t.B)}}
 	case st2:
@@ -458,6 +483,8 @@ func (g GV) Coq() string {
 		return fmt.Sprintf("(GMap %v %v %d)", g.StrAny, g.Nil, g.ID)
 	case "ptr":
 		return fmt.Sprintf("(GPtr %v %d)", g.Nil, g.ID)
+	case "ptrto":
+		return fmt.Sprintf("(GPtrTo %v %d %s)", g.Nil, g.Name, g.Under.Coq())
 	case "func":
 		return fmt.Sprintf("(GFunc %v %d)", g.Nil, g.ID)
 	case "chan":
@@ -715,6 +742,9 @@ func genValues(r *rng, tier string) (vals []GV, tags [][]string) {
 		add(GV{T: t, ID: 2}, "kind="+t)
 		add(GV{T: t, Nil: true}, "kind="+t, "typed_nil")
 	}
+	pst2 := GV{T: "struct", ID: 2, Elems: []GV{gInt("KInt", "1"), gStr(3)}}
+	add(GV{T: "ptrto", Name: 2, Under: &pst2}, "kind=ptr")
+	add(GV{T: "ptrto", Name: 2, Nil: true, Under: &GV{T: "struct", ID: 2, Elems: []GV{gInt("KInt", "0"), gStr(0)}}}, "kind=ptr", "typed_nil")
 	add(GV{T: "struct", ID: 1, Elems: []GV{gInt("KInt", "1"), gSlice("EInt", gInt("KInt", "2"))}}, "kind=struct", "non_comparable")
 	add(GV{T: "struct", ID: 2, Elems: []GV{gInt("KInt", "1"), gStr(3)}}, "kind=struct")
 	add(GV{T: "struct", ID: 3, Elems: []GV{nan}}, "kind=struct", "nan")
